@@ -363,6 +363,9 @@ type c15Out struct {
 	retrySamples       int
 	handle             []string
 	handleSamples      int
+	fault              []string
+	faultSamples       int
+	faultNotRealised   int
 }
 
 func (o *c15Out) violation(kind string, detail interface{}) {
@@ -1179,6 +1182,23 @@ func runC15(cfg *runCfg) error {
 		cycles = 1
 	}
 
+	if cfg.extra == "only:fault" {
+		// development aid: nothing but the fault family, many times over (looking for flakiness)
+		for i := 0; i < 40; i++ {
+			if err := c15Fault(o, r, cfg.tier); err != nil {
+				return err
+			}
+		}
+		cf.def("fault_cases", "list c15_seq_case", cList(o.fault))
+		cf.result("V_fault", "c15_seq_violations fault_cases")
+		cf.result("M_fault", "c15_seq_mismatches fault_cases")
+		m.ImplViolations = o.impl
+		m.Evaluations = len(o.fault)
+		if err := cf.write(cfg.outDir); err != nil {
+			return err
+		}
+		return m.write(cfg.outDir)
+	}
 	// --- seq: the fixed wrap-around starts, everything outstanding ---
 	for _, s := range c15Starts(r) {
 		var h []c15Ev
@@ -1302,6 +1322,10 @@ func runC15(cfg *runCfg) error {
 	if err := c15Handle(o, r, cfg.tier); err != nil {
 		return err
 	}
+	// --- fault: a rejected write while other callers hold later identifiers ---
+	if err := c15Fault(o, r, cfg.tier); err != nil {
+		return err
+	}
 	// --- cycle / F13 probe ---
 	f13 := 0
 	for i := 0; i < cycles; i++ {
@@ -1344,21 +1368,25 @@ func runC15(cfg *runCfg) error {
 	cf.def("handle_cases", "list c15_handle_case", cList(o.handle))
 	cf.result("V_handle", "c15_handle_violations handle_cases")
 	cf.result("M_handle", "c15_handle_mismatches handle_cases")
+	cf.def("fault_cases", "list c15_seq_case", cList(o.fault))
+	cf.result("V_fault", "c15_seq_violations fault_cases")
+	cf.result("M_fault", "c15_seq_mismatches fault_cases")
 	cf.def("cycle_cases", "list c15_cycle_case", cList(o.cycle))
 	cf.result("V_cycle", "c15_cycle_violations cycle_cases")
 	cf.result("M_cycle", "c15_cycle_mismatches cycle_cases")
 
 	m.ImplViolations = o.impl
-	m.Evaluations = len(o.seq) + len(o.conc) + len(o.bulk) + len(o.cycle) + len(o.wrapc) + len(o.retry) + len(o.handle)
+	m.Evaluations = len(o.seq) + len(o.conc) + len(o.bulk) + len(o.cycle) + len(o.wrapc) + len(o.retry) + len(o.handle) + len(o.fault)
 	m.DistinctNontrivial = len(o.nontriv) + o.nontrivN
-	m.Rule = "one evaluation = one scenario on a fresh connected BaseClient with the counter set by VerifSetIDLast (or left as initID chose it): seq = a history of requests and acknowledgements by one caller; conc = 1-16 callers in parallel, all requests outstanding; bulk = thousands of goroutines released together; cycle = one request never acknowledged + 70,000 acknowledged publishes (full cycle, reproduces F13); wrapc = one distinct outcome of the short contention trials at a wrap-around (thousands of trials, identical outcomes counted once); retry = one scenario of publishes, cuts and reconnections through a RetryClient; handle = a request interrupted on client A whose retry handle is run on client B with requests outstanding. non-trivial = distinct scenario with at least 3 requests (seq), at least 2 callers and 4 requests (conc), every bulk, cycle and wrapc entry, retry scenarios with at least 4 PUBLISH attempts"
-	m.Distribution["scenarios"] = map[string]int{"seq": len(o.seq), "conc": len(o.conc), "bulk": len(o.bulk), "cycle": len(o.cycle), "wrapc": len(o.wrapc), "retry": len(o.retry), "handle": len(o.handle)}
+	m.Rule = "one evaluation = one scenario on a fresh connected BaseClient with the counter set by VerifSetIDLast (or left as initID chose it): seq = a history of requests and acknowledgements by one caller; conc = 1-16 callers in parallel, all requests outstanding; bulk = thousands of goroutines released together; cycle = one request never acknowledged + 70,000 acknowledged publishes (full cycle, reproduces F13); wrapc = one distinct outcome of the short contention trials at a wrap-around (thousands of trials, identical outcomes counted once); retry = one scenario of publishes, cuts and reconnections through a RetryClient; handle = a request interrupted on client A whose retry handle is run on client B with requests outstanding; fault = a request whose Transport.Write is held and then rejected (connection stays usable) while other callers take later identifiers, followed by further requests. non-trivial = distinct scenario with at least 3 requests (seq), at least 2 callers and 4 requests (conc), every bulk, cycle and wrapc entry, retry scenarios with at least 4 PUBLISH attempts"
+	m.Distribution["scenarios"] = map[string]int{"seq": len(o.seq), "conc": len(o.conc), "bulk": len(o.bulk), "cycle": len(o.cycle), "wrapc": len(o.wrapc), "retry": len(o.retry), "handle": len(o.handle), "fault": len(o.fault)}
 	m.Distribution["requests_issued"] = o.requests
 	m.Distribution["request_kinds"] = o.kinds
 	m.Distribution["start_counter"] = o.starts
 	m.Distribution["f13_reproduced_in_cycles"] = f13
 	m.Distribution["bursts_with_overlap_proved_by_control_counter"] = o.contended
 	m.Distribution["bursts_repeated_for_lack_of_overlap"] = o.dropped
+	m.Distribution["fault_family_interleaving_not_realisable"] = o.faultNotRealised
 	m.Distribution["waits_expired"] = atomic.LoadInt32(&c15Expired)
 	m.Distribution["scenarios_skipped_after_expired_waits"] = o.skipped
 	if err := cf.write(cfg.outDir); err != nil {
